@@ -282,6 +282,25 @@ func Features() []Feature {
 		}
 	}
 
+	// empty_behavior on well-known message types whose JSON form is not an object (a string)
+	for _, eb := range []struct {
+		n string
+		v int32
+	}{{"empty_preserve", 1}, {"empty_null", 2}, {"empty_omit", 3}} {
+		// (Duration is left out: its OpenAPI/TS representation is a subject of its own, outside the annotations)
+		for _, wk := range []struct{ kind, typ string }{{"timestamp", spec.Timestamp}} {
+			eb, wk, sh := eb, wk, next()
+			lossy := ""
+			if eb.v != 1 {
+				lossy = "empty-presence"
+			}
+			add(Feature{ID: eb.n + "/" + wk.kind + "/singular", Ann: eb.n, Kind: wk.kind, Card: "singular", Shape: sh, Lossy: lossy, Build: func(b *B) string {
+				b.Msg("Root", append([]*spec.Field{spec.FM(b.N.Field(sh, 0), 1, wk.typ).With(func(a *spec.Ann) { a.EmptyBehavior = eb.v }), spec.FM("plain_wkt", 2, wk.typ)}, siblings(3)...)...)
+				return "Root"
+			}})
+		}
+	}
+
 	// timestamp_format
 	for _, tf := range []struct {
 		n     string
